@@ -122,7 +122,10 @@ def mk_pdu(kind, cfg, p):
         ctor = lambda: P.MetadataPdu(conf, params, opts if opts else None)
     elif kind == "nak":
         params = [(_i(s), _i(e)) for s, e in p["segs"]]
-        ctor = lambda: P.NakPdu(conf, _i(p["start"]), _i(p["end"]), params)
+        if params:
+            ctor = lambda: P.NakPdu(conf, _i(p["start"]), _i(p["end"]), params)
+        else:       # no segment requests: the optional argument is left out
+            ctor = lambda: P.NakPdu(conf, _i(p["start"]), _i(p["end"]))
     elif kind == "prompt":
         from spacepackets.cfdp.pdu.prompt import ResponseRequired
         ctor = lambda: P.PromptPdu(conf, ResponseRequired(p["resp"]))
@@ -180,6 +183,35 @@ def mk_pdu_via_setters(kind, cfg, p):
                                 if p["meta"] else None)
     # the caller's objects were legitimately written through by the setters: compare from here on
     return obj, conf, params, _snapshot(conf, params)
+
+
+def rebuild_pdu(kind, d):
+    """A new PDU constructed from the attribute values of a DECODED one, exactly as the decoder left them (plain ints where
+    it stores ints, enum members where it stores those): what an application does that forwards or answers a PDU."""
+    from spacepackets.cfdp import pdu as P
+    conf = copy.copy(d.pdu_header.pdu_conf)
+    if kind == "eof":
+        return P.EofPdu(conf, d.file_checksum, d.file_size, d.fault_location, d.condition_code)
+    if kind == "finished":
+        from spacepackets.cfdp.pdu.finished import FinishedParams
+        return P.FinishedPdu(conf, FinishedParams(d.condition_code, d.delivery_code, d.file_status,
+                                                  list(d.file_store_responses or []), d.fault_location))
+    if kind == "ack":
+        return P.AckPdu(conf, d.directive_code_of_acked_pdu, d.condition_code_of_acked_pdu, d.transaction_status)
+    if kind == "metadata":
+        from spacepackets.cfdp.pdu.metadata import MetadataParams
+        return P.MetadataPdu(conf, MetadataParams(d.closure_requested, d.checksum_type, d.file_size, d.source_file_name,
+                                                  d.dest_file_name), d.options)
+    if kind == "nak":
+        return P.NakPdu(conf, d.start_of_scope, d.end_of_scope, list(d.segment_requests))
+    if kind == "prompt":
+        return P.PromptPdu(conf, d.response_required)
+    if kind == "keepalive":
+        return P.KeepAlivePdu(conf, d.progress)
+    if kind == "filedata":
+        from spacepackets.cfdp.pdu.file_data import FileDataParams
+        return P.FileDataPdu(conf, FileDataParams(d.file_data, d.offset, d.segment_metadata))
+    raise ValueError(kind)
 
 
 def kind_of(obj):
@@ -424,6 +456,11 @@ def op_pdu_rt(a):
             from spacepackets.cfdp.defs import LargeFileFlag, CrcFlag
             o = t[0]
             o.pack()
+            # lists handed out by getters are grown in place (a later object must not see that), then setters are used
+            for name in ("segment_requests", "file_store_responses", "options"):
+                lst = getattr(o, name, None)
+                if isinstance(lst, list):
+                    lst.append(lst[0] if lst else (7, 9))
             for name, val in (("file_data", b"\x77\x77\x77"), ("segment_requests", [(1, 2), (3, 4)]), ("options", None),
                               ("source_file_name", "twin"), ("file_store_responses", [])):
                 if hasattr(type(o), name):
@@ -446,9 +483,10 @@ def op_pdu_rt(a):
         caller = _snapshot(conf, params) == snap
         d = pdu_class(a["kind"]).unpack(rxbuf(raw, a["sfx"]))
         decode_other("pdu:" + a["kind"], pdu_class(a["kind"]).unpack)
+        rebuilt = outcome(lambda: octs(rebuild_pdu(a["kind"], d).pack()))
         return {"octets": octs(raw), "plen": plen, "dflen": dflen, "hlen": hlen, "dec": proj_pdu(d),
                 "dplen": d.packet_len, "ddflen": d.pdu_data_field_len, "eq": bool(d == obj) and bool(obj == d),
-                "repack": outcome(lambda: octs(d.pack())), "caller": caller}
+                "repack": outcome(lambda: octs(d.pack())), "caller": caller, "rebuild": rebuilt}
     return outcome(run)
 
 
